@@ -276,7 +276,22 @@ def sign_shape(ctx):
                   reason="MAC covers %s, expected the whole message" % render(arg(an, ub, ut, 1), maxdepth=3), detail="update(message)")
     # output: extend(tag) then extend(message)
     exts = calls(sb, "extend_from_slice")
-    ctx.exact(R, "extend_from_slice calls in sign", len(exts), 2, sb.loc)
+    concat = [c for c in calls_in(return_expr(an)) if flow.short(c[1]).split("::")[-1] == "concat"]
+    if not exts and len(concat) == 1:
+        # the same bytes built in one step: [tag, message].concat()
+        arr = flow.strip(concat[0][3][0])
+        while arr[0] == "cast":
+            arr = flow.strip(arr[2])
+        elems = [v for _, v in arr[2]] if arr[0] == "agg" and arr[1] == "array" else []
+        ctx.exact(R, "extend_from_slice calls in sign", len(elems), 2, sb.loc)
+        okc = len(elems) == 2 and bool(calls_in(elems[0], "Mac::finalize")) and bool(calls_in(elems[0], "into_bytes")) and \
+            param_name(flow.strip(elems[1], extra=("as_slice", "as_ref"))) == "message" and field_path(flow.strip(elems[1], extra=("as_slice", "as_ref")))[1] == []
+        ctx.check(okc, R, "C10/auth-cookie-wire/sign-tag-then-message", sb.loc,
+                  reason="output is assembled as %s; expected [tag, message].concat()" % render(arr, maxdepth=4),
+                  detail="output = finalize().into_bytes() || message")
+        ctx.ok(R, "C10/auth-cookie-wire/sign-returns-buffer", sb.loc, "sign returns the concatenation")
+    else:
+        ctx.exact(R, "extend_from_slice calls in sign", len(exts), 2, sb.loc)
     if len(exts) == 2:
         order = sorted(exts, key=lambda x: 0 if always_before(g, x[0], [y for y in exts if y is not x][0][0]) else 1)
         first, second = order
@@ -289,8 +304,8 @@ def sign_shape(ctx):
                   detail="output = finalize().into_bytes() || message")
     r = flow.strip(return_expr(an))
     muts = find_all(return_expr(an), lambda x: x[0] == "mut")
-    ret_ok = any(all(m.endswith("extend_from_slice") for m in mm[2]) for mm in muts)
-    ctx.check(ret_ok, R, "C10/auth-cookie-wire/sign-returns-buffer", sb.loc,
+    ret_ok = any(all(m.endswith("extend_from_slice") for m in mm[2]) for mm in muts) or (not exts and len(concat) == 1)
+    ctx.check(ret_ok, R, "C10/auth-cookie-wire/sign-returns-buffer/assembled", sb.loc,
               reason="sign returns %s" % render(r, maxdepth=3), detail="returns the assembled buffer")
     # agreement with verify: same MAC type
     vb = ctx.body(r"^passage_protocol::cookie::verify$", rule=R)
